@@ -153,6 +153,18 @@ def evm_grid(ctx, differ):
                 found += 1
                 ctx.violation("failing-input", "constant folding differs from run-time evaluation", d,
                               key=f"iropt:{show_shape(s)}:value")
+    # seq-level rewrites of _optimize (memzero / calldataload / mload->mcopy merges, empty seqs, if-on-literal, ...)
+    from vlib.c15_evm import BASE_X, merge_programs
+    nm = 0
+    for prog in merge_programs(rnd):
+        ins = [(x, y, rnd.choice(BASE_X), rnd.choice(BASE_X)) for x in (0, 3, 5, W - 1, HALF) for y in (0, 3, W - 1)]
+        d = differ.run_program(prog, ins)
+        nm += 1
+        if d is not None and found < 3:
+            found += 1
+            ctx.violation("failing-input", "optimised IR behaves differently from unoptimised IR (seq-level rewrite)", d,
+                          key="iropt:seq:" + str(nm))
+    ctx.corr["evm_seq_programs"] = nm
     ctx.corr["evm_grid_programs"] = n
     ctx.corr["evm_fold_programs"] = nl
     return found
@@ -187,12 +199,16 @@ def peephole_tie(ctx):
     ctx.corr["peephole_cases"] = 2 * len(asms)
     ctx.corr["peephole_cases_rewritten"] = changed
     ctx.corr["peephole_corpus_chunks"] = len(corpus)
-    if bad is not None:
-        # Search: the EVM differential (variant asmopt / iropt+asmopt) has already run on the grid; a
-        # stack-level witness: run both outputs on the model machine is not an implementation input, so
-        # report the broken tie.
+    # observation / Search: stack programs with every window, with and without optimize_assembly, on the EVM
+    from vlib.evm import Chain
+    npat, diff = c15_asm.pattern_evm_differential(Chain("cancun"), ctx.rng("asmevm"))
+    ctx.corr["peephole_evm_programs"] = npat
+    if diff is not None:
+        ctx.violation("failing-input", "optimize_assembly changes the result of a stack program", diff,
+                      key="asmopt:" + diff["assembly"][-60:])
+    elif bad is not None:
         ctx.violation("correspondence-broken", "Peephole model != real assembly optimiser pass (exact output)", bad)
-    return 2 * len(asms)
+    return 2 * len(asms) + npat
 
 
 def run(ctx):
